@@ -1,5 +1,6 @@
 import GeomV.C05.Tie
 import GeomV.C05.ProofsStream
+import GeomV.C05.ProofsCount
 /-!
 # C05 — the streaming theorems restated for the definitions regenerated from the Go source
 
@@ -21,5 +22,16 @@ theorem C05_truncated_src (fuel : Nat) (t : OTree) (g : BGeom) (p q : Bytes)
     (he : Encodable g) (hf : g.depth + 1 < fuel) (hs : serializeMixed t g = some (p ++ q)) (hq : q ≠ []) :
     Gen.read fuel p = .error .eof := by
   rw [tie_read]; exact C05_truncated fuel t g p q he hf hs hq
+
+/-- **C05_roundtrip_iff_src**: `wkb.Decode (wkb.Encode g) = g`, for the two functions as the source defines them
+now, holds exactly for the `Encodable` values. -/
+theorem C05_roundtrip_iff_src (bo : BO) (g : BGeom) :
+    (∃ bs, Gen.encode g bo = .ok bs ∧ Gen.decode bs = .ok g) ↔ Encodable g := by
+  simpa only [tie_encode, tie_decode] using C05_roundtrip_iff bo g
+
+/-- **C05_decoded_encodable_src**: every value `wkb.Read` (as regenerated) returns is `Encodable`. -/
+theorem C05_decoded_encodable_src (fuel : Nat) (bs r : Bytes) (g : BGeom)
+    (h : Gen.read fuel bs = .ok (g, r)) : Encodable g := by
+  rw [tie_read] at h; exact C05_decoded_encodable fuel bs r g h
 
 end GeomV.C05
